@@ -14,6 +14,7 @@
 pub mod alloc;
 pub mod builtins;
 pub mod cabi;
+pub mod cabi_client;
 pub mod crash;
 pub mod driver;
 pub mod host;
